@@ -22,7 +22,8 @@ RULE = ('States = Dataset / TemporalDataset objects reachable from the initial o
         'list / ndarray descriptors; plus 40-row objects for sort stability) by sequences of the C11 '
         'operation alphabet with state-derived argument menus; de-duplicated by (kind, row ids, column '
         'ids, time ids, descriptor container/element types). One evaluation = one transition executed on '
-        'the real object and judged by invariant + id-list model; distinct = distinct history.')
+        'the real object and judged by invariant + id-list model; distinct = distinct history.'
+        ' Subset requests also hold values that are not present (longer label with a present prefix, number between present ones).')
 ASSUMPTIONS = ['inadmissible calls are not generated: empty selections; odd_even_split on a descriptor with one '
                'value; to_df/from_df with constant observation descriptors or a non-unique naming channel '
                'descriptor; bin_time when further per-time-point descriptors exist (they cannot be binned)',
